@@ -17,7 +17,7 @@ Extraction "model.ml"
   assign_view move_view fill_view swap_views assign_vals x_sizes_eq footprint e_addr
   v_eq v_ne v_lt v_le v_gt v_ge v_tree flat_t
   twin_op twin_ops norm firsts_of diag_ok v_first
-  v_index x_from_linear x_to_linear x_next_canonical x_prev_canonical x_intersection x_eq l_call
+  v_broadcasted v_index x_from_linear x_to_linear x_next_canonical x_prev_canonical x_intersection x_eq l_call
   a_ext asrt_observe nz_observe asrt_index asrt_brackets abort_level asrt_sliced asrt_sliced_nullbase
   asrt_bm asrt_plain asrt_op nz_op checks asserts_along g_apply g_run g_index g_brackets
   asrt_it_diff asrt_it_eq asrt_it_cmp asrt_e_cmp asrt_e_make_plain asrt_assign numel_eq exts_eq view_kind g_assign.
